@@ -43,4 +43,18 @@ func installMutexSeam(r *Run) {
 		}
 		s.Yield(0, "mutex", loc)
 	}
+	// statements with an atomic load, store or swap of a field (the halt lock,
+	// the position, the journal mode, the lease): a scheduling point when the
+	// run asks for it and the goroutine holds no sync mutex
+	litefs.VerifAtomicYield = func(loc string) {
+		cur := curRun.Load()
+		if cur == nil || !cur.AtomicSeam {
+			return
+		}
+		s := cur.Sched
+		if s == nil || litefs.VerifHeldMutexes() != 0 {
+			return
+		}
+		s.Yield(0, "atomic", loc)
+	}
 }
